@@ -16,7 +16,7 @@ SIGMA = ["{", "}", "(", ")", ":", '"', "\\", "u", "1", "a", ".", "-", "#", "\n",
          "\ud83d", "\udc00", "[", "@", "!", "e", "0"]
 EDIT = ["{", "}", "(", '"', "\\", "u", "1", "a", ".", "-", "#", "\n", "$", "\ud83d", "\udc00", "\x00", "[", "@", "!", ":", "="]
 BOUNDS = {
-    "quick": "all strings <=4 over 25 symbols x 5 parsing entry points; every prefix and every single edit (3 ops x 21 symbols x every position) of 2 kitchen-sink files and 30 hand seeds; nesting depth 1..100 x 6 productions complete and cut at every depth; 320 sources x 14 variable maps x 5 operation names through graphql_sync; every builtin Exception class + 16 attribute-shape classes x 8 raise positions x sync/async; structured request matrix: 12 selection contexts (3 operation types, object/list/union/interface parents, fragments) x 21 directive targets (every meta field, every field kind, inline/named spreads) x 92 directive forms (7 directive arguments x 11 value forms, repeats, unknown) x variable definitions x variable maps x schema with/without @defer/@stream; 10 typed variables x 18 runtime values x 20 map keys (case-mapping-length-changing, surrogate, non-str) at 5 nesting positions",
+    "quick": "all strings <=4 over 25 symbols x 5 parsing entry points; every prefix and every single edit (3 ops x 21 symbols x every position) of 2 kitchen-sink files and 30 hand seeds; nesting depth 1..100 x 6 productions complete and cut at every depth; 320 sources x 14 variable maps x 5 operation names through graphql_sync; every builtin Exception class + 16 attribute-shape classes x 8 raise positions x sync/async; every ordered pair of 44 escape forms (fixed-width and braced unicode escapes at every surrogate / plane boundary, simple and invalid escapes, raw surrogates) in a string, alone and as an argument, cut at every position, value compared with the reference tokenizer; structured request matrix: 12 selection contexts (3 operation types, object/list/union/interface parents, fragments) x 21 directive targets (every meta field, every field kind, inline/named spreads) x 92 directive forms (7 directive arguments x 11 value forms, repeats, unknown) x variable definitions x variable maps x schema with/without @defer/@stream; 10 typed variables x 18 runtime values x 20 map keys (case-mapping-length-changing, surrogate, non-str) at 5 nesting positions",
     "thorough": "strings <=5 over 25 symbols; double edits on hand seeds <=25 chars (10 symbols)",
 }
 RULE = (
@@ -116,6 +116,8 @@ def shards(tier):
         for with_incr in (False, True):
             out.append(("matrix", (ci, with_incr)))
     out.append(("varkeys", None))
+    for i in range(len(ESCAPES)):
+        out.append(("escapes", i))
     return out
 
 
@@ -436,6 +438,48 @@ def run_resolver_case(label, factory, position, mode, res, viol):
             return False
     res.outcome(("res", position, mode, type(e.original_error).__name__, r.data is None))
     return True
+
+
+# --------------------------------------------------------------------------- escape sequences
+
+_HEX4 = ["0000", "0041", "007f", "D7FF", "D800", "D83D", "DBFF", "DC00", "DE00", "DFFF", "E000", "FFFD", "FFFF", "dbff", "12"]
+_BRACED = ["0", "41", "D7FF", "D800", "DBFF", "DC00", "DFFF", "E000", "10000", "1F600", "10FFFF", "110000", "00000041", "FFFFFFFFF", "", "G"]
+ESCAPES = (["\\u" + h for h in _HEX4] + ["\\u{" + h + "}" for h in _BRACED]
+           + ["\\n", '\\"', "\\\\", "\\/", "\\x", "\\u", "\\u{", "\\", "a", "\ud83d", "\udc00", "\n", ""])
+
+
+def run_escapes(i, tier, res, viol):
+    """Every ordered pair (triple in the thorough tier) of escape forms inside a string, and every truncation of it."""
+    from graphql import GraphQLSyntaxError, parse_value
+
+    first = ESCAPES[i]
+    thirds = ESCAPES if tier == "thorough" else [""]
+    n = 0
+    for second in ESCAPES:
+        for third in thirds:
+            body = first + second + third
+            for full in ('"' + body + '"', '{ f(a: "' + body + '") }'):
+                for cut in range(1, len(full) + 1):
+                    s = full[:cut]
+                    if not check_parsers(s, res, viol, ["parse", "parse_value"]):
+                        break
+                    n += 1
+            # the value of the literal is the reference tokenizer's value
+            src = '"' + body + '"'
+            toks = reflex.tokens(src)
+            if toks is not None and len(toks) == 1 and toks[0][0] == "STRING":
+                res.evaluations += 1
+                try:
+                    got = parse_value(src).value
+                except GraphQLSyntaxError:
+                    continue  # reported by check_parsers as the reference accepts... only if it does not lex
+                if got != toks[0][3]:
+                    viol("string_value_differs", src, f"parse_value gives {got!r}, reference tokenizer {toks[0][3]!r}")
+            res.states += 1
+    res.transitions += n
+    res.count("escape_sources", n)
+    if i == 5:
+        res.sample({"string_body": first + ESCAPES[7], "sources": "the string alone and as an argument, cut at every position"})
 
 
 # --------------------------------------------------------------------------- structured request matrix
@@ -765,6 +809,8 @@ def run_shard(shard, tier):
             res.states += 1
             res.transitions += len(vm) * len(OPNAMES)
         res.sample({"source": sources[8], "variables": [v[0] for v in vm], "operation_names": OPNAMES})
+    elif kind == "escapes":
+        run_escapes(arg, tier, res, viol)
     elif kind == "matrix":
         run_matrix(arg[0], arg[1], tier, res, viol)
     elif kind == "varkeys":
@@ -794,8 +840,11 @@ def replay(payload):
 
     kind = payload["kind"]
     s = payload["input"]
-    if kind in ("strings", "short", "edits", "edits2"):
+    if kind in ("strings", "short", "edits", "edits2", "escapes"):
         check_parsers(s, res, viol)
+        if kind == "escapes":
+            for i in range(len(ESCAPES)):
+                run_escapes(i, "quick", res, viol)
     elif kind == "nest":
         check_parsers(s, res, viol, ["parse", "parse_value"])
         check_request(s, "none", None, None, res, viol)
